@@ -163,9 +163,9 @@ PROPERTIES.update({
         "level_note": "netCDF4/xarray trusted.",
     },
     "C19": {
-        "modules": ["km", "purity"], "level": "other", "floor": 30,
+        "modules": ["km", "purity"], "level": "other", "floor": 400,
         "assumptions": COMMON + [A["A2"], A["A8"]], "trusted": [T["Z3"]],
-        "explanation": "PROVED: the stability helpers return the published expressions per branch for float AND integer heights (no narrowing store), grid cell centres, downwind cells zero, NON-NEGATIVE: every upwind cell of the code's expression is strictly positive whenever U > 0 (helper postconditions phi_m, phi_c, m > 0 and 0 < n < 3/2 proved on the real helpers for every dtype combination; exp/pow/sqrt/gamma uninterpreted with ground positivity instances), negative-U path returns an empty footprint only when U < 0, symmetry of the closed form about the wind axis, rotations by multiples of 90 degrees are signed permutations of the grid axes, estimateZ0 without smoothing inverts the diabatic log law. The cell-by-cell closed form (power-product identity over ~10 nested quantities) is attempted by the exact normaliser in the thorough tier and otherwise covered by the bounded stand-in; convergence of the cell sum to the incomplete-gamma mass and median-smoothed estimateZ0 are bounded only.",
+        "explanation": "PROVED: the stability helpers return the published expressions per branch for float AND integer heights (no narrowing store), grid cell centres, downwind cells zero, NON-NEGATIVE: every upwind cell of the code's expression is strictly positive whenever U > 0 (helper postconditions phi_m, phi_c, m > 0 and 0 < n < 3/2 proved on the real helpers for every dtype combination; exp/pow/sqrt/gamma uninterpreted with ground positivity instances), negative-U path returns an empty footprint only when U < 0, symmetry of the closed form about the wind axis, rotations by multiples of 90 degrees are signed permutations of the grid axes, estimateZ0 without smoothing inverts the diabatic log law; WITH directional smoothing (symbolic half window 1..89 deg and the default 22, wind directions in [0, 360)): each of the 360 one-degree bins takes np.nanmedian (opaque) over exactly the raw estimates whose direction lies in the CIRCULAR window [kk - h, kk + 1 + h) mod 360 (360 obligations on the masks the real loop builds), every observation receives the median of its own bin, and a rotation of all wind directions by whole degrees maps windows onto windows and bins onto bins (two SMT lemmas): the rotation-invariance clause of the statement, modulo 'the median depends only on the selected values'. The cell-by-cell closed form (power-product identity over ~10 nested quantities) is attempted by the exact normaliser in the thorough tier and otherwise covered by the bounded stand-in; convergence of the cell sum to the incomplete-gamma mass is bounded only.",
         "level_text": "Helper functions, geometry and inversion proved; the full closed-form product and the limit statements are bounded.",
         "level_note": "A1, A2, A8.",
     },
